@@ -112,7 +112,11 @@ class Renderer:
         r = self.r
         x = r.random()
         if self.comments and x < 0.12:
-            return ' (* ' + r.choice(['c', 'note: a /\\ b', 'x => y', '', '(', 'multi\nline']) + ' *) '
+            body = r.choice(['c', 'note: a /\\ b', 'x => y', '', '(', 'multi\nline', '* banner *', '** guard **',
+                             'a * b', '*', '**', ') (', '(* nested?'])
+            if body.startswith('*') and r.random() < 0.5:
+                return ' (*' + body + '*) '         # `(** guard ***)`: asterisks touch the delimiters
+            return ' (* ' + body + ' *) '
         if self.comments and x < 0.18:
             return ' \\* ' + r.choice(['trailing', 'a \\/ b', '~ ~', '']) + '\n '
         if x < 0.75:
@@ -177,7 +181,7 @@ class Renderer:
     def top(self, e):
         s = self.render(e)
         if self.comments and self.r.random() < 0.3:
-            s = '(* lead *) ' + s
+            s = self.r.choice(['(* lead *) ', '(** lead **) ', '(*** x ***)']) + s
         if self.comments and self.r.random() < 0.3:
             s = s + ' \\* end'
         return s
